@@ -175,7 +175,13 @@ def order_preserved(ctx):
                                 if isinstance(k, ast.Constant) and k.value == 'part_number':
                                     pnv = v
                         tnames = q.names_in(loop.target) if isinstance(loop, ast.For) else set()
-                        ctx.ob(f, f"'part_number': {norm(pnv)} is the loop's own part number", isinstance(pnv, ast.Name) and pnv.id in tnames, 'the part task must get the number of the body/range it sends')
+                        own = isinstance(pnv, ast.Name) and pnv.id in tnames
+                        # 0-based loop: for i in range(n): part number i + 1
+                        if not own and pnv is not None and isinstance(loop, ast.For) and isinstance(loop.target, ast.Name) and isinstance(loop.iter, ast.Call) \
+                                and norm(loop.iter.func) == 'range' and (len(loop.iter.args) == 1 or (len(loop.iter.args) == 2 and norm(loop.iter.args[0]) == '0')):
+                            from ..poly import equal as _eq
+                            own = _eq(pnv, f'{loop.target.id} + 1')
+                        ctx.ob(f, f"'part_number': {norm(pnv)} is the loop's own part number", own, 'the part task must get the number of the body/range it sends')
     # Task._get_all_main_kwargs
     f = ctx.func('tasks.Task._get_all_main_kwargs')
     apps = [c for c in own_calls(f.node) if isinstance(c.func, ast.Attribute) and c.func.attr == 'append' and c.args and norm(c.args[0]).endswith('.result()')]
@@ -200,9 +206,22 @@ def order_preserved(ctx):
         ranges = [c for c in own_calls(f.node) if isinstance(c.func, ast.Name) and c.func.id == 'range' and len(c.args) == 2
                   and norm(c.args[0]) == '1' and isinstance(c.args[1], ast.BinOp) and isinstance(c.args[1].op, ast.Add) and norm(c.args[1].right) == '1']
         counters = [x for x in own_nodes(f.node) if isinstance(x, ast.AugAssign) and isinstance(x.target, ast.Name) and 'part_number' in x.target.id]
+        counts = [l for l in own_nodes(f.node) if isinstance(l, ast.For) and isinstance(l.iter, ast.Call) and (dotted(l.iter.func) or '').split('.')[-1] == 'count'
+                  and [norm(a) for a in l.iter.args] == ['1'] and not l.iter.keywords and isinstance(l.target, ast.Name)]
+        zero_based = [l for l in own_nodes(f.node) if isinstance(l, ast.For) and isinstance(l.target, ast.Name) and isinstance(l.iter, ast.Call) and norm(l.iter.func) == 'range'
+                      and (len(l.iter.args) == 1 or (len(l.iter.args) == 2 and norm(l.iter.args[0]) == '0'))
+                      and any(isinstance(b, ast.BinOp) and norm(b) in (f'{l.target.id} + 1', f'1 + {l.target.id}') for b in ast.walk(l))]
         if ranges:
             srcs += 1
             ctx.ob(f, f'part numbers from {norm(ranges[0])}', True, 'monotone source 1..n')
+        elif zero_based and not counters:
+            srcs += 1
+            ctx.ob(f, f'part numbers from {norm(zero_based[0].iter)} as index + 1', True, 'monotone source 1..n')
+        elif counts:
+            srcs += 1
+            ys = [x for x in own_nodes(f.node) if isinstance(x, ast.Yield)]
+            ok = len(counts) == 1 and bool(ys) and all(q.in_loop(y) is counts[0] and isinstance(y.value, ast.Tuple) and norm(y.value.elts[0]) == counts[0].target.id for y in ys)
+            ctx.ob(f, f'part numbers from itertools.count(1), yielded first in the pair', ok, 'part numbers must be 1, 2, 3, ... in yield order')
         elif counters:
             srcs += 1
             c0 = counters[0]
@@ -251,13 +270,16 @@ def stream_is_read_to_eof_from_its_position(ctx):
     stream records the position first and restores it on every path; the single-request
     body of a seekable stream is sized from the current position."""
     f = ctx.func('upload.UploadNonSeekableInputManager.yield_upload_part_bodies')
-    loops = [n for n in own_nodes(f.node) if isinstance(n, ast.While)]
+    allreads = [c for c in own_calls(f.node) if (dotted(c.func) or '') == 'self._read']
+    loops = [q.in_loop(c) for c in allreads if q.in_loop(c) is not None]
     ctx.need(loops, 'part loop of the non-seekable manager not found')
     lp = loops[0]
     exits = [n for n in ast.walk(lp) if isinstance(n, (ast.Break, ast.Return)) and q.in_loop(n) is lp]
     reads = [c for c in ast.walk(lp) if isinstance(c, ast.Call) and (dotted(c.func) or '') == 'self._read']
     var = reads[0]._parent.targets[0].id if len(reads) == 1 and isinstance(reads[0]._parent, ast.Assign) else None
-    ok = isinstance(lp.test, ast.Constant) and bool(lp.test.value) and len(exits) == 1 and var is not None \
+    unbounded = (isinstance(lp, ast.While) and isinstance(lp.test, ast.Constant) and bool(lp.test.value)) or \
+        (isinstance(lp, ast.For) and isinstance(lp.iter, ast.Call) and (dotted(lp.iter.func) or '').split('.')[-1] == 'count')
+    ok = unbounded and len(exits) == 1 and var is not None \
         and q.equivalent(' and '.join(('' if pol else 'not ') + f'({norm(e)})' for e, pol in q.guards(exits[0]) if any(a is lp for a in _anc(e))) or 'True', f'not {var}')
     ctx.ob(f, f'the part loop ends only when a read returns nothing (if not {var}: break)', ok,
            'a short read is not end of stream: ending the loop on anything else drops the tail of the stream while the upload still succeeds')
